@@ -239,10 +239,7 @@ theorem OnceB.openRound (e : EP) (r : OpenReq) : OnceB [] e (openRound e r).1 (o
       simp only
       have s1 := OnceB.insertOther e fid (.requested r.req) rfl
       split
-      · have s2 : OnceB [] ({ e with flows := insert e.flows fid (.requested r.req) } : EP)
-            ({ e with flows := insert e.flows fid (.requested r.req) } : EP) [Ev.openDone r.req .closed] :=
-          OnceB.silent rfl (by simp [doneB])
-        exact ((s1.trans s2).evs (by simp)).congr rfl (pendB_eq rfl)
+      · exact OnceB.silent rfl (by simp [doneB])
       · exact s1.congr rfl (pendB_eq (by simp))
 
 theorem openRejected_pendB (e : EP) (req : Nat) (final : Bool) : pendB (openRejected e req final).1 = pendB e :=
